@@ -24,6 +24,7 @@ Deviations, stated where they occur:
 -/
 import FuelVerif.Model.TxDesc
 import FuelVerif.Gen.Offsets
+import FuelVerif.Gen.Precompute
 namespace FuelVerif.Offsets
 open FuelVerif FuelVerif.Canonical FuelVerif.Canonical.Resolve FuelVerif.Canonical.TxDesc
 open FuelVerif.Gen.Canonical (inputVariants txVariants)
@@ -358,16 +359,49 @@ def computeCommon (id : Bytes) (t : Tx) : Except TooLarge CommonMetadata :=
               outputsOffsetAt := outputsOffsetAt, witnessesOffset := t.witnessesOffset,
               witnessesOffsetAt := witnessesOffsetAt }
 
-/-- `Cacheable::precompute` as far as offsets and the id go: `self.metadata = None;` then
-`Some(ChargeableMetadata { common: CommonMetadata::compute(self, chain_id)?, body: .. })`.
-(`CreateMetadata::compute` / `UpgradeMetadata::compute` may fail for reasons that are not about offsets —
-missing bytecode witness, checksum mismatch; then Rust leaves `metadata = None`; not modelled.) -/
-def precompute (id : Bytes) (t : Tx) : Except TooLarge Tx :=
+/-- `Cacheable::precompute` with the reset first (the order the current sources have, obligation `precompute_order`):
+`self.metadata = None;` then `Some(ChargeableMetadata { common: CommonMetadata::compute(self, chain_id)?, body: .. })`. -/
+def precomputeCanon (id : Bytes) (t : Tx) : Except TooLarge Tx :=
   let t0 : Tx := { t with metadata := none }
   match computeCommon id t0 with
   | .error e => .error e
   | .ok common =>
     .ok { t0 with metadata := some { common := common, scriptDataOffset := if t.kind = .script then t0.scriptDataOffset else 0 } }
+
+/-- the effects of a `precompute` body (tools/gen/precompute.py): `reset` = `self.metadata = None`, `common` =
+`CommonMetadata::compute(self, chain_id)`, `script` = `self.script_data_offset()`, `other` = a body metadata that holds no
+offset (`CreateMetadata::compute(self)`, `UpgradeMetadata::compute(self)`: ids / roots / parameters, not modelled — they may
+also fail, then Rust leaves the metadata as it was), `store` = `self.metadata = Some(..)` -/
+inductive PStep | reset | common | script | other | store
+  deriving DecidableEq, Repr, Inhabited
+
+def PStep.ofEvent : String → Option PStep
+  | "reset" => some .reset | "common" => some .common | "script" => some .script
+  | "create" => some .other | "upgrade" => some .other | "store" => some .store
+  | _ => none
+
+/-- the regenerated order of effects of the kind's `precompute` -/
+def stepsOf (k : Kind) : List PStep := ((Gen.Precompute.order.lookup k.name).getD []).filterMap PStep.ofEvent
+
+/-- run the effects in order: every read sees the object as it is at that moment (a read before `reset` sees the old cache).
+`idOf` = `tx.id(chain_id)` of the object at that moment (Model/TxId.lean). -/
+def runSteps (idOf : Tx → Bytes) : List PStep → Tx → Option CommonMetadata → Nat → Except TooLarge Tx
+  | [], t, _, _ => .ok t
+  | .reset :: rest, t, c, s => runSteps idOf rest { t with metadata := none } c s
+  | .common :: rest, t, _, s =>
+    match computeCommon (idOf t) t with
+    | .error e => .error e
+    | .ok c => runSteps idOf rest t (some c) s
+  | .script :: rest, t, c, _ => runSteps idOf rest t c t.scriptDataOffset
+  | .other :: rest, t, c, s => runSteps idOf rest t c s
+  | .store :: rest, t, c, s =>
+    match c with
+    | some common => runSteps idOf rest { t with metadata := some { common := common, scriptDataOffset := s } } c s
+    | none => runSteps idOf rest t c s
+
+/-- `Cacheable::precompute` of the chargeable kinds, as far as offsets and the id go: the effects of the kind's body in the
+order the source has them -/
+def precompute (idOf : Tx → Bytes) (t : Tx) : Except TooLarge Tx := runSteps idOf (stepsOf t.kind) t none 0
 
 end Tx
 
